@@ -30,11 +30,38 @@ type reachCase struct {
 	} `json:"exp"`
 }
 
+// reachUnp: a custom unpacker with Validate() (wrappers Unp, PUnp)
+type reachUnp struct{ X int }
+
+func (u *reachUnp) Unpack(v interface{}) error {
+	switch n := v.(type) {
+	case int64:
+		u.X = int(n)
+	case uint64:
+		u.X = int(n)
+	default:
+		return fmt.Errorf("reachUnp: %T", v)
+	}
+	return nil
+}
+
+func (u *reachUnp) Validate() error {
+	if u.X < 2 {
+		return fmt.Errorf("X must be >= 2")
+	}
+	return nil
+}
+
+var tReachUnp = reflect.TypeOf(reachUnp{})
 var tReachIn = reflect.TypeOf(reachIn{})
 
 // reachElemType / reachElem: the element forms In, PIn (*In), PPIn, PPPIn, IfPIn (interface{} holding *In), IfIn, IfPPIn
 func reachElemType(form string) reflect.Type {
 	switch form {
+	case "Unp":
+		return tReachUnp
+	case "PUnp":
+		return reflect.PtrTo(tReachUnp)
 	case "In":
 		return tReachIn
 	case "PIn":
@@ -48,6 +75,14 @@ func reachElemType(form string) reflect.Type {
 }
 
 func reachElem(form string, x int) reflect.Value {
+	if form == "Unp" || form == "PUnp" {
+		u := reflect.New(tReachUnp)
+		u.Elem().Field(0).SetInt(int64(x))
+		if form == "Unp" {
+			return u.Elem()
+		}
+		return u
+	}
 	v := reflect.New(tReachIn)
 	v.Elem().Field(0).SetInt(int64(x))
 	ptr := func(p reflect.Value) reflect.Value {
@@ -87,7 +122,7 @@ func reachXs(v reflect.Value, out *[]int) {
 	}
 	switch v.Kind() {
 	case reflect.Struct:
-		if v.Type() == tReachIn {
+		if v.Type() == tReachIn || v.Type() == tReachUnp {
 			*out = append(*out, int(v.Field(0).Int()))
 		}
 	case reflect.Slice, reflect.Array:
@@ -185,7 +220,11 @@ func reachReplay(args []string) int {
 					in["w"] = nil
 				case "obj-y":
 					in["w"] = map[string]interface{}{"y": 7}
-				case "null-new":
+				case "u0":
+				in["w"] = 0
+			case "u5":
+				in["w"] = 5
+			case "null-new":
 					in["w"] = map[string]interface{}{"fresh": nil, "other": "o"}
 				case "first":
 					if coll == "M" {
